@@ -192,7 +192,16 @@ fn nexthop_of(v: &Val) -> Result<Option<Nexthop>, BadCase> {
     }
 }
 fn nexthop_val(n: &Option<Nexthop>) -> Val {
-    Val::opt(n.as_ref().map(|n| Val::from_bytes(&n.to_bytes())))
+    // spelled out (not Nexthop::to_bytes, which is part of the code under test)
+    Val::opt(n.as_ref().map(|n| match n {
+        Nexthop::V4(a) => Val::from_bytes(&a.octets()),
+        Nexthop::V6(a) => Val::from_bytes(&a.octets()),
+        Nexthop::V6LinkLocal(g, l) => {
+            let mut v = g.octets().to_vec();
+            v.extend_from_slice(&l.octets());
+            Val::from_bytes(&v)
+        }
+    }))
 }
 
 fn attr_of(v: &Val) -> Result<Attribute, BadCase> {
